@@ -46,6 +46,17 @@ pub fn hex(b: &[u8]) -> String {
     s
 }
 
+/// an optional first argument `@names=<hex>,<hex>,...` gives the file names (default `f<i>.st`)
+fn split_names<'a>(rest: &[&'a str]) -> (Vec<String>, Vec<&'a str>) {
+    if let Some(first) = rest.first() {
+        if let Some(list) = first.strip_prefix("@names=") {
+            let names = list.split(',').filter_map(unhex_text).collect();
+            return (names, rest[1..].to_vec());
+        }
+    }
+    (Vec::new(), rest.to_vec())
+}
+
 fn handle(line: &str) -> String {
     let parts: Vec<&str> = line.trim().split(' ').collect();
     match parts.as_slice() {
@@ -75,6 +86,8 @@ fn handle(line: &str) -> String {
             None => "bad-arg".into(),
         },
         ["projedit", rest @ ..] => {
+            let (names, rest) = split_names(rest);
+            let rest = &rest[..];
             let txt = |h: &str| -> Option<String> { if h == "-" { Some(String::new()) } else { unhex_text(h) } };
             let mut initial = Vec::new();
             let mut edits = Vec::new();
@@ -92,11 +105,12 @@ fn handle(line: &str) -> String {
                     }
                 }
             }
-            ana::projedit_cmd(&initial, &edits)
+            ana::projedit_cmd(&initial, &edits, &names)
         }
         [cmd @ ("analyze" | "project"), rest @ ..] => {
+            let (names, rest) = split_names(rest);
             let mut texts = Vec::new();
-            for h in rest {
+            for h in rest.iter() {
                 if h.is_empty() {
                     continue;
                 }
@@ -108,9 +122,9 @@ fn handle(line: &str) -> String {
                 }
             }
             if *cmd == "analyze" {
-                ana::analyze_cmd(&texts)
+                ana::analyze_cmd(&texts, &names)
             } else {
-                ana::project_cmd(&texts)
+                ana::project_cmd(&texts, &names)
             }
         }
         _ => "bad-op".into(),
